@@ -1,8 +1,8 @@
 #!/usr/bin/env python3
 """Regenerates MANIFEST.json from checkcfg.py + manifest_meta.py (keeps it valid at all times)."""
 import json, subprocess
-from checkcfg import PROPS
-from manifest_meta import META, NOT_APPLICABLE, HOOK_COMMITS, NOTES
+from checkcfg import PROPS, META
+from manifest_meta import NOT_APPLICABLE, HOOK_COMMITS, NOTES
 
 checks = []
 for pid in sorted(PROPS):
